@@ -176,11 +176,13 @@ MANIFEST_TEXT["C12"] = dict(engine="E-hist", design_ref="DESIGN.md §4 C12",
 PROPS["C20"] = dict(
     special="loom", driver="c20", builds=["loom", "rel"], level="model_checking",
     rule="E-sched: loom (DPOR over the C11 memory model, no preemption bound) explores every interleaving of T threads x K calls of the real serialize::temp_file_name, whose counter is a loom atomic in this build (hook H2; the use "
-         "site - fetch_add and the name formatting - is the shared line users run). Configurations (T,K): (2,1) (2,2) (2,3) (3,1) (3,2), thorough adds (3,3) (4,1); shared and per-thread name parts; name parts incl. dotted, empty and "
+         "site - fetch_add and the name formatting - is the shared line users run). Configurations (T,K): (2,1) (2,2) (2,3) (3,1) (3,2), thorough adds (3,3) (4,1) (4,2); shared and per-thread name parts; name parts incl. dotted, empty and "
          "spaced ones. Oracle per execution: all returned paths pairwise distinct and each file name contains the caller's name part. distinct_nontrivial = distinct assignments of counter values to calls observed. "
-         "Beside it, a free-running run on the normal build (8 OS threads x 20 000 calls) is SAMPLING and decides nothing, but a duplicate it observes is a real counterexample; plus deterministic sequential checks for 7 name parts.",
-    bounds={"quick": "T x K up to 3 x 2 (7 847 executions) and 2 x 3", "thorough": "adds 3 x 3 (162 390 executions) and 4 x 1 (56 805)"},
-    assumptions=["memory orderings are loom's model of C11; more than 3 threads x 3 calls (4 x 2 = 8.5 M executions, 14 min) is outside the tiers",
+         "One loom configuration runs with files already present under the names the first counter values produce (the file system as an environment answer). "
+         "Beside it, on the normal build: deterministic sequential checks for 7 name parts; a deterministic history (threads that run one after the other, pre-existing files under the next names, 140 000 + 70 000 calls from single threads, i.e. beyond 2^16 and 2^17); "
+         "and a free-running run (8 OS threads x 20 000 calls) that is SAMPLING and decides nothing, but a duplicate it observes is a real counterexample.",
+    bounds={"quick": "T x K up to 3 x 2 (7 847 executions) and 2 x 3", "thorough": "adds 3 x 3 (162 390 executions), 4 x 1 (56 805) and 4 x 2 (8 478 855 executions)"},
+    assumptions=["memory orderings are loom's model of C11; more than 4 threads x 2 calls / 3 threads x 3 calls is outside the tiers",
                  "the loom build compiles /repo/src through the shadow package harness/loomshadow with --cfg simple_sds_verif_loom"],
 )
 MANIFEST_TEXT["C20"] = dict(engine="E-sched", design_ref="DESIGN.md §4 C20",
